@@ -815,6 +815,13 @@ class C09(Property):
             b = near(a0, rng.choice([1e-3, 1e3]) * rtol) if rng.random() < 0.85 else _q(rng)
             c = {'op': 'allclose_u', 'a': a0, 'b': b, 'rtol': rtol, 'atol': None, 'a_unc': None, 'b_unc': None}
             c[rng.choice(['a_unc', 'b_unc'])] = rng.choice([0.1, 1e-6, 5.0])
+            if rng.random() < 0.6:                       # an atol that is an UncertainQuantity (or a plain quantity) as well
+                t = _compat_q(rng, a0) if rng.random() < 0.85 else _q(rng)
+                t['mag'] = float(abs(_si(a0)) * F(rtol) * rng.choice([1000, F(1, 1000)]) / _book(t)[1]) if _book(t)[2] == _book(a0)[2] else t['mag']
+                c['atol'] = t
+                c['atol_unc'] = rng.choice([None, 0.1, 2.0, 2.0])
+                if rng.random() < 0.3:
+                    c['a_unc'] = c['b_unc'] = None       # only atol is uncertain (the ionic_strength regression)
             return c
         if rng.random() < 0.35:
             return self._g_shape_helper(rng, a0)
@@ -830,7 +837,8 @@ class C09(Property):
             if kind == 'len1':
                 return {'arr': [near(base[0], rel())]}
             if kind == 'arr2':
-                return {'arr2': [[near(x, rel()) for x in base] for _ in range(2)]}
+                # square (rows == columns) as well as rectangular: a 1-d limit must be paired with the COLUMNS (fixed by the shape-based broadcast)
+                return {'arr2': [[near(x, rel()) for x in base] for _ in range(rng.choice([2, 3]))]}
             return {'arr': [near(x, rel()) for x in base]}
         same = rng.random() < 0.5                       # all elements physically equal (so that broadcasting can give True)
         base = [a0] * n if same else [a0] + [_compat_q(rng, a0) for _ in range(n - 1)]
@@ -842,7 +850,7 @@ class C09(Property):
         if not far:
             a = {k: _nd_map(v, lambda q: dict(q)) for k, v in a.items()}
         r = rng.random()
-        if r < 0.08 and 'arr' in b and len(b['arr']) > 1:
+        if r < 0.08 and 'arr' in b and len(b['arr']) > 1 and 'arr2' not in a:     # (with a 2-d operand the list fallback pairs row i with b[i]: no claim)
             b = {'arr': b['arr'] + [b['arr'][0]]}                                   # lengths n and n+1: not broadcastable -> False
         elif r < 0.16:
             b = {k: _nd_map(v, lambda q: dict(q, u=q['u'] + [['s', 1]])) for k, v in b.items()}      # another dimension: False, no exception
@@ -1243,8 +1251,8 @@ class C09(Property):
         elif op == 'shape_helper':
             return None                     # n-d shapes of the other helpers: oracle-only (the model of these helpers is 1-d)
         elif op == 'allclose_u':
-            m.update(a=_mj(c['a']), b=_mj(c['b']), rtol=rat_json(F(c['rtol'])), atol=None)
-            for k in ('a', 'b'):
+            m.update(a=_mj(c['a']), b=_mj(c['b']), rtol=rat_json(F(c['rtol'])), atol=None if c.get('atol') is None else _mj(c['atol']))
+            for k in ('a', 'b', 'atol'):
                 if c.get(k + '_unc') is not None:
                     m[k + '_unc'] = rat_json(F(c[k + '_unc']))
         elif op == 'compare_equality_c':
@@ -1367,7 +1375,8 @@ class C09(Property):
         if op == 'allclose_arrays':
             return str(bool(self._call_allclose_arrays(cu, c)))
         if op == 'allclose_u':
-            return str(bool(cu.allclose(self._unc(cu, c, 'a'), self._unc(cu, c, 'b'), rtol=c['rtol'])))
+            return str(bool(cu.allclose(self._unc(cu, c, 'a'), self._unc(cu, c, 'b'), rtol=c['rtol'],
+                                        atol=None if c.get('atol') is None else self._unc(cu, c, 'atol'))))
         if op == 'compare_equality_c':
             return str(bool(cu.compare_equality(_cval_real(c['a']), _cval_real(c['b']))))
         if op == 'rescale':
@@ -1767,6 +1776,8 @@ class C09(Property):
             try:
                 A2, B2 = np.broadcast_arrays(A, B)
             except ValueError:
+                if A.ndim > 1 or B.ndim > 1:
+                    return None      # 2-d against a non-broadcastable 1-d operand: the list fallback compares row i with b[i] (NumPy would refuse); no claim
                 got = call()
                 return None if bool(got) is False else 'allclose of shapes %r and %r that cannot be broadcast is not False' % (A.shape, B.shape)
             if A2.size == 0:
@@ -1807,9 +1818,11 @@ class C09(Property):
             atol = c.get('atol')
             if op == 'allclose_u':
                 ra, rb = self._unc(cu, c, 'a'), self._unc(cu, c, 'b')
+                ratol = None if atol is None else self._unc(cu, c, 'atol')
             else:
                 ra, rb = ([_real(x) for x in la], [_real(x) for x in lb]) if op == 'allclose_list' else (_real(la[0]), _real(lb[0]))
-            call = lambda: cu.allclose(ra, rb, rtol=c['rtol'], atol=None if atol is None else _real(atol))
+                ratol = None if atol is None else _real(atol)
+            call = lambda: cu.allclose(ra, rb, rtol=c['rtol'], atol=ratol)
             if len(la) != len(lb):
                 return None if call() is False else 'allclose of lists of different length is not False'
             want = True
